@@ -91,6 +91,10 @@ mod verif_c01_walker {
     // ("every word is zero afterwards, nothing else is written") is proved on the real loop, over
     // a table whose 512 words are all symbolic, in c09_page_table_zero_contract below. The stub
     // also records on which table it ran and how often.
+    //
+    // Solver: these harnesses read and write table slots at symbolic indices. With the default SAT
+    // back end (cadical) each takes 18-50 s, almost all of it in the solver; through CBMC's SMT
+    // back end with cvc5 (array theory) 1-4 s. Same verdicts with cadical, z3 and cvc5 (measured).
     static mut ZERO_CALLS: u32 = 0;
     static mut ZERO_LAST: *const PageTable = core::ptr::null();
     fn zero_stub(t: &mut PageTable) {
@@ -281,6 +285,7 @@ mod verif_c01_walker {
     //@ obligation C02 C02.create_next_table.alloc_failure_leaves_entry_unused
     //@ obligation C09 C09.create_next_table.one_request_iff_unused
     #[kani::proof]
+    #[kani::solver(cvc5)]
     #[kani::stub(PageTable::zero, zero_stub)]
     fn c02_create_next_table_unused_alloc_fails() {
         let mut ta = PageTable::new();
@@ -319,6 +324,7 @@ mod verif_c01_walker {
     //@ obligation C09 C09.create_next_table.one_request_iff_unused
     //@ obligation C09 C09.create_next_table.other_table_untouched
     #[kani::proof]
+    #[kani::solver(cvc5)]
     #[kani::stub(PageTable::zero, zero_stub)]
     fn c09_create_next_table_unused_alloc_ok() {
         let mut ta = PageTable::new();
@@ -370,6 +376,7 @@ mod verif_c01_walker {
     //@ obligation C09 C09.create_next_table.no_request_when_entry_exists
     //@ obligation C09 C09.create_next_table.existing_table_not_zeroed
     #[kani::proof]
+    #[kani::solver(cvc5)]
     #[kani::stub(PageTable::zero, zero_stub)]
     fn c01_create_next_table_existing_table_entry() {
         let mut ta = PageTable::new();
@@ -421,6 +428,7 @@ mod verif_c01_walker {
     //@ obligation C02 C02.create_next_table.huge_parent_entry_unchanged_on_error
     //@ obligation C09 C09.create_next_table.no_request_when_entry_exists
     #[kani::proof]
+    #[kani::solver(cvc5)]
     #[kani::stub(PageTable::zero, zero_stub)]
     fn c02_create_next_table_existing_huge_entry() {
         let mut ta = PageTable::new();
